@@ -18,6 +18,8 @@ import (
 	"sync"
 	"time"
 
+	"verifgo/vlib"
+
 	"github.com/scrapli/scrapligo/driver/generic"
 	"github.com/scrapli/scrapligo/driver/options"
 	"github.com/scrapli/scrapligo/logging"
@@ -378,7 +380,7 @@ func c16Stalls(c *ctx) {
 		model string
 	}
 	outs := make([]out, len(jobs))
-	sem := make(chan struct{}, 4)
+	sem := make(chan struct{}, vlib.Conc(4))
 	var wg sync.WaitGroup
 	for i := range jobs {
 		wg.Add(1)
